@@ -95,26 +95,31 @@ func (p *TMultiUDPTransport) RemainingBytes() uint64 {
 }
 
 // Write writes specified buf to the write buffer of underlying transports
+// Every transport is written to even if one of them fails, so that they all
+// keep assembling (or all drop) the same message; the first error is returned.
 func (p *TMultiUDPTransport) Write(buff []byte) (int, error) {
 	n := 0
+	var firstErr error
 	for _, trans := range p.transports {
 		written, err := trans.Write(buff)
-		if err != nil {
-			return n, err
+		if err != nil && firstErr == nil {
+			firstErr = err
 		}
-		if written > n {
+		if written > n && firstErr == nil {
 			n = written
 		}
 	}
-	return n, nil
+	return n, firstErr
 }
 
 // Flush flushes the write buffer of the underlying transports
+// Every transport is flushed even if one of them fails; the first error is returned.
 func (p *TMultiUDPTransport) Flush() error {
+	var firstErr error
 	for _, trans := range p.transports {
-		if err := trans.Flush(); err != nil {
-			return err
+		if err := trans.Flush(); err != nil && firstErr == nil {
+			firstErr = err
 		}
 	}
-	return nil
+	return firstErr
 }
